@@ -28,6 +28,7 @@ import (
 	"fmt"
 	"math/rand"
 	"os"
+	"runtime"
 	"sort"
 	"strconv"
 	"strings"
@@ -111,7 +112,7 @@ func nhStr(nhs []*table.FibNextHopEntry) string {
 	}
 	parts := make([]string, len(nhs))
 	for i, nh := range nhs {
-		parts[i] = strconv.FormatUint(nh.Nexthop, 10) + ":" + strconv.FormatUint(nh.Cost, 10)
+		parts[i] = strconv.FormatUint(aliasFace(nh.Nexthop), 10) + ":" + strconv.FormatUint(nh.Cost, 10)
 	}
 	sort.Strings(parts)
 	return strings.Join(parts, ",")
@@ -146,7 +147,7 @@ func ribListing() string {
 	for _, e := range table.Rib.GetAllEntries() {
 		var rs []string
 		for _, r := range e.GetRoutes() {
-			rs = append(rs, fmt.Sprintf("%d:%d:%d:%d", r.FaceID, r.Origin, r.Cost, r.Flags))
+			rs = append(rs, fmt.Sprintf("%d:%d:%d:%d", aliasFace(r.FaceID), r.Origin, r.Cost, r.Flags))
 		}
 		sort.Strings(rs)
 		items = append(items, unintern(e.Name)+"="+strings.Join(rs, ","))
@@ -160,11 +161,44 @@ type op struct {
 	a    []uint64
 }
 
+// real faces: in the lifecycle rounds a logical face number of the trace is a real NDNLP link service over an in-memory
+// transport; everywhere else face numbers are used as FaceIDs directly (both maps empty)
+var (
+	faceReal  = map[uint64]uint64{}               // logical -> FaceID
+	faceAlias = map[uint64]uint64{}               // FaceID -> logical
+	faceTr    = map[uint64]*face.VerifTransport{} // logical -> transport
+)
+
+func realFace(l uint64) uint64 {
+	if id, ok := faceReal[l]; ok {
+		return id
+	}
+	return l
+}
+
+func aliasFace(id uint64) uint64 {
+	if l, ok := faceAlias[id]; ok {
+		return l
+	}
+	return id
+}
+
+func waitGoroutines(n int) {
+	deadline := time.Now().Add(2 * time.Second)
+	for runtime.NumGoroutine() > n && time.Now().Before(deadline) {
+		time.Sleep(100 * time.Microsecond)
+	}
+}
+
 func (o op) String() string {
 	var sb strings.Builder
-	sb.WriteString(o.kind)
+	if o.kind == "close" {
+		sb.WriteString("teardown") // for the sequential model the end of the transport is a teardown of the face
+	} else {
+		sb.WriteString(o.kind)
+	}
 	switch o.kind {
-	case "teardown", "fib", "sl", "rib":
+	case "teardown", "close", "fib", "sl", "rib":
 	default:
 		sb.WriteByte(' ')
 		sb.WriteString(o.name.String())
@@ -180,11 +214,19 @@ func (o op) run() string {
 	f := table.FibStrategyTable
 	switch o.kind {
 	case "reg":
-		table.Rib.AddEncRoute(o.name.enc(), &table.Route{FaceID: o.a[0], Origin: o.a[1], Cost: o.a[2], Flags: o.a[3]})
+		table.Rib.AddEncRoute(o.name.enc(), &table.Route{FaceID: realFace(o.a[0]), Origin: o.a[1], Cost: o.a[2], Flags: o.a[3]})
 	case "unreg":
-		table.Rib.RemoveRouteEnc(o.name.enc(), o.a[0], o.a[1])
+		table.Rib.RemoveRouteEnc(o.name.enc(), realFace(o.a[0]), o.a[1])
 	case "teardown":
-		face.FaceTable.Remove(o.a[0]) // the real teardown path: face table, dispatch table, RIB clean-up
+		face.FaceTable.Remove(realFace(o.a[0])) // management faces/destroy, or the teardown path of a face that is not running
+	case "close":
+		// the transport ends: the link service's own goroutines run the teardown (runSend -> FaceTable.Remove -> CleanUpFace)
+		if t := faceTr[o.a[0]]; t != nil {
+			before := runtime.NumGoroutine()
+			t.Close()
+			waitGoroutines(before - 2)
+			faceTr[o.a[0]] = nil
+		}
 	case "ins":
 		f.InsertNextHopEnc(o.name.enc(), o.a[0], o.a[1])
 	case "rem":
@@ -744,6 +786,107 @@ func unsetRaceRound(t *testing.T, w *bufio.Writer, round int, impl string, m int
 	_ = attempts
 }
 
+// lifecycleRounds: the life of a face as the daemon lives it -- a real NDNLP link service over an in-memory transport,
+// started with Run; management faces/destroy takes it out of the tables while its transport keeps running; routes are
+// registered on its id before and after; finally the transport ends and the link service's own goroutines tear it down.
+// Every order of {register, destroy, register again, unregister} before the final close is enumerated, alone and with a
+// second goroutine registering on another face while the teardown runs.  Recorded for the sequential-witness search
+// (destroy and close are both "teardown" there: whatever the order, no route of a face survives its last teardown).
+func lifecycleRounds(t *testing.T, w *bufio.Writer) {
+	P, Q := iname{1, 2}, iname{1, 2, 3}
+	universe := []iname{{}, {1}, P, Q, {1, 2, 3, 4}}
+	scripts := [][]op{
+		{{"reg", P, []uint64{1, 0, 5, 1}}, {"close", nil, []uint64{1}}},
+		{{"reg", P, []uint64{1, 0, 5, 1}}, {"teardown", nil, []uint64{1}}, {"reg", Q, []uint64{1, 0, 7, 0}}, {"close", nil, []uint64{1}}},
+		{{"teardown", nil, []uint64{1}}, {"reg", P, []uint64{1, 65, 5, 1}}, {"close", nil, []uint64{1}}},
+		{{"reg", P, []uint64{1, 0, 5, 1}}, {"reg", Q, []uint64{900002, 0, 1, 0}}, {"teardown", nil, []uint64{1}}, {"reg", P, []uint64{1, 0, 9, 3}}, {"unreg", P, []uint64{1, 0}}, {"reg", Q, []uint64{1, 0, 2, 1}}, {"close", nil, []uint64{1}}},
+		{{"reg", P, []uint64{1, 0, 5, 1}}, {"close", nil, []uint64{1}}, {"reg", Q, []uint64{1, 0, 7, 0}}, {"teardown", nil, []uint64{1}}},
+	}
+	k := 0
+	for _, impl := range []string{"T", "H"} {
+		for si, script := range scripts {
+			for _, withOther := range []bool{false, true} {
+				k++
+				m := 1 + k%3
+				core.GetConfig().Tables.Fib.Hashtable.M = uint16(m)
+				if impl == "H" {
+					table.CreateFIBTable("hashtable")
+				} else {
+					table.CreateFIBTable("nametree")
+				}
+				resetRib()
+				tr := face.NewVerifTransport(8800, defn.NonLocal)
+				ls := face.MakeNDNLPLinkService(tr, face.MakeNDNLPLinkServiceOptions())
+				ls.Run(nil)
+				faceReal = map[uint64]uint64{1: ls.FaceID()}
+				faceAlias = map[uint64]uint64{ls.FaceID(): 1}
+				faceTr = map[uint64]*face.VerifTransport{1: tr}
+				var clock atomic.Int64
+				var mu sync.Mutex
+				var recs []rec
+				stuck := ""
+				do := func(gor int, o op) {
+					inv := clock.Add(1)
+					var res string
+					if !bounded(stuckAfter, func() { res = o.run() }) {
+						mu.Lock()
+						stuck = o.String()
+						mu.Unlock()
+						return
+					}
+					mu.Lock()
+					recs = append(recs, rec{gor, inv, clock.Add(1), o, res})
+					mu.Unlock()
+				}
+				for i, o := range script {
+					if stuck != "" {
+						break
+					}
+					if withOther && i == len(script)-1 {
+						var wg sync.WaitGroup
+						wg.Add(1)
+						go func() {
+							defer wg.Done()
+							do(1, op{"reg", iname{1}, []uint64{900003, 0, 4, 1}}) // a face id that cannot collide with a real one
+							do(1, op{"nh", Q, nil})
+						}()
+						do(0, o)
+						wg.Wait()
+					} else {
+						do(0, o)
+					}
+				}
+				lastOps = lastOps[:0]
+				for _, r := range recs {
+					lastOps = append(lastOps, r.op.String())
+				}
+				fmt.Fprintf(w, "R f%d-%d %s %d 2\n", k, si, impl, m)
+				if stuck != "" {
+					fmt.Fprintf(w, "X watchdog: [%s] in the life of a face never returned (deadlock)\nE\n", stuck)
+					w.Flush()
+					t.Fatalf("lifecycle round %d stuck at %s", k, stuck)
+				}
+				us := make([]string, len(universe))
+				for i, n := range universe {
+					us[i] = n.String()
+				}
+				fmt.Fprintf(w, "U %s\n", strings.Join(us, " "))
+				for _, r := range recs {
+					fmt.Fprintf(w, "H %d %d %d %s => %s\n", r.g, r.inv, r.resp, r.op.String(), r.res)
+				}
+				fmt.Fprint(w, finalObs(universe))
+				fmt.Fprintf(w, "E\n")
+				if faceTr[1] != nil {
+					before := runtime.NumGoroutine()
+					tr.Close()
+					waitGoroutines(before - 2)
+				}
+				faceReal, faceAlias, faceTr = map[uint64]uint64{}, map[uint64]uint64{}, map[uint64]*face.VerifTransport{}
+			}
+		}
+	}
+}
+
 // listingRound: management listings (GetAllFIBEntries, GetAllForwardingStrategies, Rib.GetAllEntries) run beside
 // forwarding lookups and updates on prefixes whose next hops are NOT in ascending cost order (unrecorded: race / abort /
 // torn-value detection; every value read must be one that was written).
@@ -1006,6 +1149,7 @@ func TestConc(t *testing.T) {
 	harnessT, harnessW = t, w
 	if os.Getenv("VERIF_NOFORCED") == "" {
 		forcedRounds(t, w)
+		lifecycleRounds(t, w)
 	}
 	start := time.Now()
 	ms := []int{1, 2, 5, 3}
